@@ -304,6 +304,14 @@ func instrumentFile(p *packages.Package, f *ast.File, fe *fileEdits, st *stats) 
 				if s.Tag != nil {
 					hs = append(hs, s.Tag)
 				}
+				// the case expressions are evaluated by the switch statement itself
+				for _, c := range s.Body.List {
+					if cc, ok := c.(*ast.CaseClause); ok {
+						for _, e := range cc.List {
+							hs = append(hs, e)
+						}
+					}
+				}
 			case *ast.TypeSwitchStmt:
 				if s.Init != nil {
 					hs = append(hs, s.Init)
@@ -321,6 +329,10 @@ func instrumentFile(p *packages.Package, f *ast.File, fe *fileEdits, st *stats) 
 	}
 	doList := func(list []ast.Stmt) {
 		for _, s := range list {
+			switch s.(type) {
+			case *ast.CaseClause, *ast.CommClause:
+				continue // not statements one can put something in front of; their bodies are lists of their own
+			}
 			hit := false
 			for _, h := range headers(s) {
 				if trigger(h) {
